@@ -90,8 +90,8 @@ CASES += [
     {"name": "text export without the rank (the repaired defect)", "kind": "mutant", "rule": "C18-L", "edits": [
         (_MD, "        numpy.savetxt(file, self.data, header=\"ndim %d\" % numpy.ndim(self.data))", "        numpy.savetxt(file, self.data)", 1)]},
     {"name": "axis filled from a file keeps its old start and step (the repaired defect)", "kind": "mutant", "rule": "C18-L", "edits": [
-        (_DSV, "        axis.data = points\n        axis.length = len(points)\n        axis.start = points[0]\n        if len(points) > 1:\n            axis.step = points[1] - points[0]\n",
-         "        axis.data = points\n", 1)]},
+        (_DSV, "        axis.data = points\n        axis.length = len(points)\n        axis.start = points[0]\n        if len(points) > 1:\n",
+         "        axis.data = points\n        if False:\n", 1)]},
 ]
 
 CASES += [
@@ -121,4 +121,14 @@ CASES += [
                          "    return numpy.squeeze(data)\n", 1)]},
     {"name": "rank one restored with ravel", "kind": "twin", "edits": [
         (_MD18, "    if ndim == 1:\n        return data.reshape(-1)\n", "    if ndim == 1:\n        return numpy.ravel(data)\n", 1)]},
+]
+
+_DS18 = "quantarhei/core/datasaveable.py"
+_STEP18 = ("            from .managers import energy_units\n            with energy_units(\"int\"):\n                ipoints = axis.data\n"
+           "                axis.step = ipoints[1] - ipoints[0]\n")
+CASES += [
+    {"name": "step of the imported axis taken from the points in the caller's units (the repaired defect)", "kind": "mutant", "rule": "C18-L", "edits": [
+        (_DS18, _STEP18, "            axis.step = points[1] - points[0]\n", 1)]},
+    {"name": "step of the imported axis taken from the last two internal points", "kind": "twin", "edits": [
+        (_DS18, "                axis.step = ipoints[1] - ipoints[0]\n", "                axis.step = ipoints[-1] - ipoints[-2]\n", 1)]},
 ]
